@@ -13,8 +13,9 @@ import Cicada.Lemmas.Passes
   relative order of the words of the line.
 * `C12_glob_*` : the filename pass keeps the matches in the matcher's order, drops hidden ones unless
   asked for, and leaves the word alone when nothing matches.
-Open (growth): the range sequence against `rangeSpec`; text around a range (`a{1..3}b`) is dropped by the
-code — known finding KF-C12-range-context.
+The range sequence against `rangeSpec` (`C12_range_seq`, `C12_range_token`: text around the braces is kept since
+`fix:` be1fadb) is in `Thm/C12range.lean`; the filename pass on whole token lists against `globSpec`
+(`C12_glob_refines`) in `Thm/C12glob.lean`.
 -/
 namespace Cicada.C12
 open Cicada Cicada.PassLemmas
